@@ -10,6 +10,7 @@ ChannelArbitrator did.
 import LndModel.Prelude.Lines
 import LndModel.C12.Model
 import LndModel.C12.ResDriver
+import LndModel.C12.Persist
 
 open LndModel LndModel.Lines LndModel.C12
 
@@ -217,6 +218,26 @@ structure St where
   boot : String := "link"
   restartCases : Nat := 0
   relinks : Nat := 0
+  -- persistence level (round 7)
+  /-- payment hash bytes per hash id (`RH` lines) -/
+  rh : List (Nat × List Nat) := []
+  /-- the raw bytes under `commitSetKey` (`CSB` line) -/
+  csb : Option (List Nat) := none
+  gKey : String := "none"
+  gPend : Bool := false
+  gL : List Htlc := []
+  gR : List Htlc := []
+  gP : List Htlc := []
+  codecWant : String := ""
+  /-- the arbitrator of this case is the second incarnation, of a channel already closed on chain -/
+  rebooted : Bool := false
+  reboots : Nat := 0
+  rebootsAfterBroadcast : Nat := 0
+  commitSetBytesChecked : Nat := 0
+  codecCases : Nat := 0
+  codecDecodes : Nat := 0
+  codecDecodeErrors : Nat := 0
+  codecExtraSkipped : Nat := 0
 
 def St.env (s : St) : Env :=
   { preimageKnown := fun h => s.pre.contains h || s.perr.contains h, isForwarded := fun i => s.fwd.contains i,
@@ -501,6 +522,58 @@ def confMonitor (s : St) (k : SetKey) (preState : String) (opFails : List Nat)
       s ← monitor s "failback-unknown" s!"conf={kname} upstream fail for idx={i} which is not an offered HTLC on any commitment"
   return s
 
+/-! ### persistence level: byte strings, expected encodings -/
+
+open LndModel.C12.Persist in
+def hexDigit (c : Char) : Nat :=
+  if '0' ≤ c && c ≤ '9' then c.toNat - '0'.toNat
+  else if 'a' ≤ c && c ≤ 'f' then c.toNat - 'a'.toNat + 10
+  else if 'A' ≤ c && c ≤ 'F' then c.toNat - 'A'.toNat + 10 else 0
+
+def hexPairs : List Char → List Nat
+  | a :: b :: r => (hexDigit a * 16 + hexDigit b) :: hexPairs r
+  | _ => []
+
+/-- the harness' run-length hex: tokens separated by '.', a token is hex pairs or `NxHH` -/
+def parseRle (str : String) : List Nat :=
+  if str == "-" then [] else
+  (str.splitOn ".").flatMap fun tok =>
+    match tok.splitOn "x" with
+    | [n, b] => List.replicate n.toNat! ((hexPairs b.toList).headD 0)
+    | _ => hexPairs tok.toList
+
+def byteSum (b : List Nat) : Nat :=
+  (b.foldl (fun (acc : Nat × Nat) v => ((acc.1 + (acc.2 % 251 + 1) * v) % 1000003, acc.2 + 1)) (0, 0)).1
+
+open LndModel.C12.Persist in
+def canonPHtlc (h : PHtlc) : String :=
+  s!"{h.htlcIndex}:{if h.incoming then 1 else 0}:{h.amt}:{h.timeout}:{h.outputIndex}:{h.logIndex}:{h.sig.length}:{byteSum h.sig}:{byteSum h.rhash}:{byteSum h.onion}:{h.extra.length}"
+
+open LndModel.C12.Persist in
+def keyBits (k : PKey) : String := s!"{if k.isRemote then 1 else 0}{if k.isPending then 1 else 0}"
+
+open LndModel.C12.Persist in
+def canonPCommitSet (c : PCommitSet) : String :=
+  let keys : List PKey := [⟨false, false⟩, ⟨false, true⟩, ⟨true, false⟩, ⟨true, true⟩]
+  let parts := (keys.filter fun k => c.sets.any (·.1 == k)).map fun k =>
+    s!"{keyBits k}=[{",".intercalate ((lookupSet c.sets k).map canonPHtlc)}]"
+  " ".intercalate (s!"key={keyBits c.conf}" :: parts)
+
+open LndModel.C12.Persist in
+def hasExtra (c : PCommitSet) : Bool := c.sets.any fun e => e.2.any fun h => !h.extra.isEmpty
+
+open LndModel.C12.Persist in
+/-- the on-disk form of an HTLC of an arb case (`c12H.toHTLC`: no signature, zero onion blob,
+    `LogIndex = HtlcIndex`) -/
+def expectPHtlc (rh : List (Nat × List Nat)) (h : Htlc) : PHtlc :=
+  { sig := [], rhash := ((rh.find? (·.1 == h.hash)).map (·.2)).getD [], amt := h.amt, timeout := h.refundTimeout,
+    outputIndex := h.outputIndex, incoming := h.incoming, onion := List.replicate onionSize 0, extra := [],
+    htlcIndex := h.index, logIndex := h.index }
+
+open LndModel.C12.Persist in
+def pkeyOfName : String → Option PKey
+  | "L" => some keyLoc | "R" => some keyRem | "P" => some keyPend | _ => none
+
 /-! ### line processing -/
 
 def parseHtlc (ws : List String) : Option (String × Htlc) := do
@@ -580,6 +653,8 @@ def step (s : St) (line : String) : IO St := do
                       rawL := [], rawR := [], rawP := [], fwd := [], pre := [], perr := [],
                       dumpL := [], dumpR := [], dumpP := [], spent := none,
                       watcherCases := s.watcherCases + (if kind == "watcher" then 1 else 0),
+                      rh := [], csb := none, gKey := "none", gPend := false, gL := [], gR := [], gP := [],
+                      codecWant := "", rebooted := false, codecCases := s.codecCases + (if kind == "codec" then 1 else 0),
                       arb := { fcErr := fc }, lastH := 0, implState := "D", pathFails := [],
                       broadcastStep := false, bcastTrig := "", bcastHeight := 0, cases := s.cases + 1,
                       unitCases := s.unitCases + (if kind == "unit" then 1 else 0),
@@ -603,6 +678,66 @@ def step (s : St) (line : String) : IO St := do
     | some ("R", h) => return { s with rawR := s.rawR ++ [h] }
     | some ("P", h) => return { s with rawP := s.rawP ++ [h] }
     | _ => mismatch s s!"unparsed U line: {line.take 80}"
+  | "RH" :: rest =>
+    return { s with rh := s.rh ++ [((kvNat? rest "id").getD 0, hexPairs ((kv? rest "hex").getD "").toList)] }
+  | "CSB" :: rest =>
+    -- (X) the bytes the REAL InsertConfirmedCommitSet wrote: the model decoder must read the
+    -- commit set of the close event out of them, the model encoder must reproduce them
+    let bytes := parseRle ((kv? rest "bytes").getD "-")
+    let s := { s with csb := some bytes, commitSetBytesChecked := s.commitSetBytesChecked + 1 }
+    match Persist.decCommitSet bytes with
+    | none => mismatch s "persist: the model cannot decode the bytes written by InsertConfirmedCommitSet"
+    | some p =>
+      let mut s := s
+      if some p.conf != pkeyOfName ((kv? rest "key").getD "?") then
+        s ← mismatch s s!"persist: confirmed key on disk {keyBits p.conf}, close event had {(kv? rest "key").getD "?"}"
+      let want : List (Persist.PKey × List Htlc) :=
+        [(Persist.keyLoc, s.rawL), (Persist.keyRem, s.rawR)] ++ (if s.ppresent then [(Persist.keyPend, s.rawP)] else [])
+      if !((p.sets.map (·.1)).isPerm (want.map (·.1))) then
+        s ← mismatch s s!"persist: sets on disk {p.sets.map (fun e => keyBits e.1)}, close event had {want.map (fun e => keyBits e.1)}"
+      for (k, hs) in want do
+        if Persist.lookupSet p.sets k != hs.map (expectPHtlc s.rh) then
+          s ← mismatch s s!"persist: HTLCs of set {keyBits k} on disk differ from the close event's: {(Persist.lookupSet p.sets k).map canonPHtlc} vs {(hs.map (expectPHtlc s.rh)).map canonPHtlc}"
+      if Persist.encCommitSet p != bytes then
+        s ← mismatch s "persist: model encodeCommitSet of the decoded commit set differs from the bytes on disk"
+      return s
+  | "GK" :: rest =>
+    return { s with gKey := (kv? rest "key").getD "?", gPend := kvNat? rest "p" == some 1 }
+  | "G" :: rest =>
+    match parseHtlc rest with
+    | some ("L", h) => return { s with gL := s.gL ++ [h] }
+    | some ("R", h) => return { s with gR := s.gR ++ [h] }
+    | some ("P", h) => return { s with gP := s.gP ++ [h] }
+    | _ => mismatch s s!"unparsed G line: {line.take 80}"
+  | "want" :: rest => return { s with codecWant := " ".intercalate rest }
+  | "enc" :: _ =>
+    let s := { s with ops := s.ops + 1, nontrivial := s.nontrivial + 1 }
+    match resultWords ws with
+    | [r] =>
+      if r == "err" then return ← mismatch s "codec: encodeCommitSet failed"
+      let bytes := parseRle r
+      match Persist.decCommitSet bytes with
+      | none => mismatch s "codec: the model cannot decode encodeCommitSet's output"
+      | some p =>
+        let mut s := s
+        if canonPCommitSet p != s.codecWant then
+          s ← mismatch s s!"codec: encodeCommitSet wrote {canonPCommitSet p}, the commit set was {s.codecWant}"
+        if Persist.encCommitSet p != bytes then
+          s ← mismatch s "codec: model encodeCommitSet differs from the real bytes"
+        return s
+    | _ => mismatch s "codec: unparsed enc line"
+  | "dec" :: rest =>
+    let s := { s with ops := s.ops + 1, codecDecodes := s.codecDecodes + 1 }
+    let bytes := parseRle ((kv? rest "bytes").getD "-")
+    let impl := " ".intercalate (resultWords ws)
+    let s := if impl == "err" then { s with codecDecodeErrors := s.codecDecodeErrors + 1 }
+             else { s with nontrivial := s.nontrivial + 1 }
+    match Persist.decCommitSet bytes with
+    | none => if impl == "err" then return s else mismatch s s!"codec: decodeCommitSet model=err impl={impl.take 120}"
+    | some p =>
+      if hasExtra p then return { s with codecExtraSkipped := s.codecExtraSkipped + 1 }
+      let m := "ok " ++ canonPCommitSet p
+      if m == impl then return s else mismatch s s!"codec: decodeCommitSet model={m.take 200} impl={impl.take 200}"
   | "relink" :: _ =>
     -- a link update while running: nothing happens now, the sets to consider change
     let rw := resultWords ws
@@ -756,11 +891,31 @@ def step (s : St) (line : String) : IO St := do
       | some k => return s.untruth (← unitMonitorConstruct s.truth k (tr != .chain) impl)
       | none => return s
     else unitMonitorConstruct s key (tr != .chain) impl
-  | "start" :: rest | "block" :: rest | "user" :: rest =>
+  | "start" :: rest | "block" :: rest | "user" :: rest | "reboot" :: rest =>
     let s := { s with ops := s.ops + 1 }
     let opName := ws.headD ""
     let rw := resultWords ws
-    if rw == ["err"] then return ← mismatch s "harness op failed"
+    if rw == ["err"] || rw == ["inserterr"] then return ← mismatch s "harness op failed"
+    -- restart of a pending-close channel: what the new incarnation reads from the log
+    let closeType : Persist.CloseType := match kv? rest "ev" with
+      | some "local" => .localForce | some "remote" | some "pending" => .remoteForce
+      | some "breach" => .breach | some "coop" => .coop | _ => .other
+    let hashId : List Nat → Nat := fun b => ((s.rh.find? (·.2 == b)).map (·.1)).getD 999999999
+    let evRes : Option Resolutions := match closeEvOf s rest with
+      | some (.localForce _ r _, _) | some (.remoteForce _ r _, _) | some (.breach _ r _, _) => some r
+      | _ => none
+    let disk : Persist.Disk := { state := s.arb.state, resolutions := evRes, commitSet := s.csb, fcErr := s.arb.fcErr }
+    let evhR := (kvNat? rest "evh").getD 0
+    if opName == "reboot" then
+      let readable := (Persist.restartPendingCloseE s.env s.err hashId disk closeType evhR (fun _ => false)).isSome
+      if rw == ["starterr"] then
+        let mut s := { s with reboots := s.reboots + 1 }
+        if readable then s ← mismatch s "reboot: Start failed, the model starts"
+        -- (S) the channel is closed on chain but its arbitrator does not come up again
+        if s.wf && (closeEvOf s rest).isSome then
+          s ← monitor s "close-not-processed" s!"the channel was marked closed (ev={(kv? rest "ev").getD "?"}) and the node restarted in state {s.implState}, but ChannelArbitrator.Start fails on what InsertConfirmedCommitSet wrote: no HTLC of the confirmed commitment gets a resolver, nothing is failed back"
+        return s
+      if !readable then return ← mismatch s "reboot: Start succeeded, the model cannot read the commit set"
     let implStr := implCore ws
     let implSt := (kv? rw "st").getD "?"
     let fc := (kvNat? rw "fc").getD 0
@@ -771,11 +926,26 @@ def step (s : St) (line : String) : IO St := do
       return ← mismatch s "a resolver was active although the harness keeps resolvers inert"
     let preState := s.implState
     let height := if opName == "user" then s.lastH else (kvNat? rest "h").getD 0
-    let ev := if opName == "block" then closeEvOf s rest else none
+    let ev := if opName == "block" || opName == "reboot" then closeEvOf s rest else none
     let env := s.env
     -- (X) correspondence
     let mut s := s
-    if opName == "start" then
+    if opName == "reboot" then
+      s := { s with reboots := s.reboots + 1, rebooted := true,
+                    rebootsAfterBroadcast := s.rebootsAfterBroadcast + (if s.implState != "D" then 1 else 0) }
+      -- the REAL FetchConfirmedCommitSet returns what the close event carried
+      let wantKey := match kv? rest "ev" with
+        | some "local" => "L" | some "remote" | some "breach" => "R" | some "pending" => "P" | _ => "none"
+      if s.gKey != wantKey then
+        s ← mismatch s s!"persist: FetchConfirmedCommitSet has ConfCommitKey={s.gKey}, the close event had {wantKey}"
+      if wantKey != "none" then
+        if s.gL != s.rawL || s.gR != s.rawR || s.gP != (if s.ppresent then s.rawP else []) || s.gPend != s.ppresent then
+          s ← mismatch s s!"persist: FetchConfirmedCommitSet returns L={renderHtlcs s.gL} R={renderHtlcs s.gR} P={renderHtlcs s.gP} (pending key {s.gPend}), the close event carried L={renderHtlcs s.rawL} R={renderHtlcs s.rawR} P={renderHtlcs s.rawP} (pending key {s.ppresent})"
+      let a0 := s.arb
+      let errf := s.err
+      s ← arbCompare s "reboot" implStr fun pl =>
+        (Persist.restartPendingCloseE env errf hashId disk closeType evhR pl).getD (a0, {})
+    else if opName == "start" then
       -- whichever way the sets reached the arbitrator (NewChannelArbitrator at a restart, link
       -- updates, or both), this is what it has to consider from now on
       s := { s with arb := startUp s.rawL s.rawR (if s.ppresent then some s.rawP else none) s.fcErr,
@@ -796,7 +966,8 @@ def step (s : St) (line : String) : IO St := do
       s := { s with nontrivial := s.nontrivial + 1 }
     s := { s with forceCloses := s.forceCloses + fc }
     let wf := s.wf
-    if preState == "D" && ev.isNone && wf then
+    -- (after a restart as pending-close channel there is nothing left to force close)
+    if preState == "D" && ev.isNone && wf && !s.rebooted then
       if opName == "user" then
         if fc != 1 then
           s ← monitor s "user-force-close" s!"user request in StateDefault: ForceCloseChan called {fc} times"
@@ -903,6 +1074,13 @@ def main (args : List String) : IO Unit := do
   IO.println s!"STAT missing_but_expected_at_broadcast={s.regressionMissing}"
   IO.println s!"STAT injected_missing_resolution_no_resolver={s.injectedMissingResolution}"
   IO.println s!"STAT must_go_dangling_only_checks={s.danglingMustGoChecks}"
+  IO.println s!"STAT pending_close_restarts={s.reboots}"
+  IO.println s!"STAT pending_close_restarts_after_broadcast={s.rebootsAfterBroadcast}"
+  IO.println s!"STAT commit_set_bytes_checked={s.commitSetBytesChecked}"
+  IO.println s!"STAT codec_cases={s.codecCases}"
+  IO.println s!"STAT codec_decodes={s.codecDecodes}"
+  IO.println s!"STAT codec_decode_errors={s.codecDecodeErrors}"
+  IO.println s!"STAT codec_extra_data_skipped={s.codecExtraSkipped}"
   IO.println s!"STAT hard_lookup_error_cases={s.lookupErrCases}"
   IO.println s!"STAT chain_action_errors={s.chainActionErrors}"
   IO.println s!"STAT arb_restart_cases={s.restartCases}"
